@@ -22,12 +22,12 @@ import os
 
 import numpy as np
 
-from common import REPO
+from common import REPO, COQ
 from props import C03 as T
 
 LEVEL = "proof"
 THEOREMS = "Props/C17.v"
-EXTRA_TARGETS = ("Traj/Encode.vo",)
+EXTRA_TARGETS = ("Traj/Encode.vo", "Gen/CellFormats.vo")
 EXTS = []
 TRANSLATOR_REQUIRED = False
 RULE = ("A: cells with lengths in [0.5, 50] nm and angle triples satisfying 1 - ca^2 - cb^2 - cg^2 + 2 ca cb cg > 0, drawn from "
@@ -276,7 +276,51 @@ def gen_text(vecs, lens, coss):
     return "\n".join(L) + "\n"
 
 
+ROUTE_KW = {"cell_lengths", "cell_angles", "unitcell_lengths", "unitcell_angles"}
+
+
+def translate_savers(src_text):
+    """[(extension, route)] from Trajectory._savers and the keyword arguments / attributes each save_* method uses:
+    RVectors (box vectors), RLengthsAngles, RLengthsOnly, RNothing"""
+    tree = ast.parse(src_text)
+    cls = [n for n in tree.body if isinstance(n, ast.ClassDef) and n.name == "Trajectory"][0]
+    meth = {n.name: n for n in cls.body if isinstance(n, ast.FunctionDef)}
+    ret = [x for x in ast.walk(meth["_savers"]) if isinstance(x, ast.Dict)]
+    if len(ret) != 1:
+        raise Untranslatable("_savers does not return one dict literal")
+    out = []
+    for k, v in zip(ret[0].keys, ret[0].values):
+        if not (isinstance(k, ast.Constant) and isinstance(v, ast.Attribute) and isinstance(v.value, ast.Name) and v.value.id == "self"):
+            raise Untranslatable("_savers entry")
+        m = meth[v.attr]
+        kws = {x.arg for x in ast.walk(m) if isinstance(x, ast.keyword) and x.arg}
+        attrs = {x.attr for x in ast.walk(m) if isinstance(x, ast.Attribute)}
+        if "box" in kws or ("unitcell_vectors" in attrs and not (kws & ROUTE_KW)):
+            route = "RVectors"
+        elif {"cell_lengths", "cell_angles"} <= kws or {"unitcell_lengths", "unitcell_angles"} <= kws:
+            route = "RLengthsAngles"
+        elif "cell_lengths" in kws:
+            route = "RLengthsOnly"
+        elif not (attrs & {"unitcell_lengths", "unitcell_angles", "unitcell_vectors", "_unitcell_lengths", "_unitcell_angles"}):
+            route = "RNothing"
+        else:
+            raise Untranslatable("cell route of %s" % v.attr)
+        out.append((k.value, route))
+    return out
+
+
 def translate(ctx):
+    with open(os.path.join(REPO, "mdtraj", "core", "trajectory.py")) as fh:
+        savers = translate_savers(fh.read())
+    ctx.write_gen("Gen/CellFormats.v", "\n".join([
+        "(* GENERATED on every run by harness/props/C17.py:translate from Trajectory._savers and the save_* methods of",
+        "   mdtraj/core/trajectory.py -- do not edit.  Which route each registered extension uses to hand the cell to its writer. *)",
+        "From Coq Require Import List String.", "Import ListNotations.", "Require Import MD.Cell.Formats.", "Open Scope string_scope.", "",
+        "Definition source_savers : list (string * route) :=",
+        "  [" + ";\n   ".join('("%s", %s)' % er for er in savers) + "].", "",
+        "(* the hand-written table of MD.Cell.Formats describes exactly the formats the source registers *)",
+        "Lemma format_table_matches_source : table_matches_source source_savers = true.",
+        "Proof. vm_compute. reflexivity. Qed.", ""]))
     path = os.path.join(REPO, "mdtraj", "utils", "unitcell.py")
     with open(path) as fh:
         tree = ast.parse(fh.read())
@@ -765,14 +809,75 @@ def correspond(ctx):
     hist = build_histories(ctx)
     ctx.log("histories:", len(hist))
     run_histories(ctx, hist)
-    sl = ctx.run_impl("cell_impl.py", {"cells": [], "saveload": True})["saveload"]
-    ctx.notes.setdefault("coverage_extra", {})["save_load_cell_presence(tested, not proved)"] = sl
-    for k, v in sl.items():
-        ctx.count({"saveload": k}, nontrivial=True, bucket="saveload")
-        if v.get("presence_ok") is False:
-            ctx.fail("save/load changed cell presence (%s)" % k.split("/")[0], {"saveload": k}, observed=v,
-                     expected="a complete per-frame cell exactly when the input had one",
-                     tags={"kind": "saveload-presence", "format": k.split("/")[0], "with_cell": k.endswith("/cell"), "explained_by": None})
+    saveload_check(ctx)
+
+
+def format_table():
+    """the table of coq/Cell/Formats.v (single source of truth, read from the Coq text)"""
+    import re
+    with open(os.path.join(COQ, "Cell", "Formats.v")) as fh:
+        txt = fh.read()
+    body = txt[txt.index("Definition format_table"):]
+    body = body[:body.index("].")]
+    return re.findall(r'\("(\.[a-z0-9.]+)",\s*([A-Za-z]+)\)', body)
+
+
+def expected_roundtrip(kind, cell):
+    """mirror of Formats.roundtrip (checked against it by vm_compute in saveload_check)"""
+    have, rect = cell != "none", cell != "triclinic"
+    if kind in ("Keeps", "ZeroBox"):
+        return have
+    if kind == "RequiresCell":
+        return True if have else None
+    if kind == "RectilinearOnly":
+        return (True if rect else None) if have else False
+    return False
+
+
+def saveload_check(ctx):
+    """every writable format x {none, triclinic, rectilinear} x {1, 3 frames} against the format table (tested, not proved:
+    the table's consequences are proved, that the formats behave as the table says is observed here)"""
+    table = format_table()
+    # the Python mirror of Formats.roundtrip agrees with the Coq definition on the whole domain
+    want = []
+    for kind in ("Keeps", "ZeroBox", "RequiresCell", "RectilinearOnly", "NoCell"):
+        for cell in ("none", "triclinic", "rectilinear"):
+            e = expected_roundtrip(kind, cell)
+            want.append("(roundtrip %s %s %s, %s)" % (kind, "true" if cell != "none" else "false", "true" if cell != "triclinic" else "false",
+                                                        "None" if e is None else "Some %s" % ("true" if e else "false")))
+    rc, out = ctx.coq_eval(["MD.Cell.Formats"], "forallb (fun p => match fst p, snd p with Some a, Some b => Bool.eqb a b | None, None => true | _, _ => false end) [%s]" % "; ".join(want))
+    if rc != 0 or "= true" not in out:
+        ctx.break_("correspondence:format-table-mirror", out[-600:])
+    res = ctx.run_impl("cell_impl.py", {"cells": [], "saveload": [e for e, _k in table]})["saveload"]
+    summary = {}
+    for ext, kind in table:
+        row = res[ext]
+        refusals = {v.get("refused") for v in row.values() if "refused" in v}
+        if len(refusals) == 1 and all("refused" in v for v in row.values()) and refusals <= {"ModuleNotFoundError", "ImportError", "TypeError"} \
+                and ext in (".gsd", ".lh5"):
+            summary[ext] = "%s: not testable in this sandbox (every save raises %s)" % (kind, refusals.pop())
+            continue
+        ok = True
+        for key, v in row.items():
+            cell, nf = key.split("/")
+            e = expected_roundtrip(kind, cell)
+            case = {"saveload": ext, "cell": cell, "frames": int(nf)}
+            ctx.count(case, nontrivial=True, bucket="saveload/" + kind)
+            bad = None
+            if e is None:
+                if "refused" not in v:
+                    bad = "the writer accepted a trajectory the format cannot represent"
+            elif "refused" in v or "load_error" in v:
+                bad = "save/load failed: %s" % v
+            elif v["have"] != e or v["half"] or v["mixed"] or not v["per_frame"] or v["frames"] != int(nf):
+                bad = "cell presence after save/load: %s (expected complete cell: %s)" % (v, e)
+            if bad:
+                ok = False
+                ctx.fail("save/load of %s does not follow the format table (%s)" % (ext, kind), case, observed=bad,
+                         expected="Formats.roundtrip %s" % kind,
+                         tags={"kind": "saveload-presence", "format": ext, "cell": cell, "explained_by": None})
+        summary[ext] = "%s: %s" % (kind, "as tabulated" if ok else "DEVIATES")
+    ctx.notes.setdefault("coverage_extra", {})["save_load_cell_presence_by_format(tested)"] = summary
 
 
 def search(ctx, broken):
@@ -788,14 +893,6 @@ def replay(ctx, rec):
     if "cell" in c:
         run_cells(ctx, [dict(c["cell"], kind="replay")])
     elif "saveload" in c:
-        correspond_saveload_only(ctx)
+        saveload_check(ctx)
     else:
         run_histories(ctx, [dict(c, stream="replay")])
-
-
-def correspond_saveload_only(ctx):
-    sl = ctx.run_impl("cell_impl.py", {"cells": [], "saveload": True})["saveload"]
-    for k, v in sl.items():
-        if v.get("presence_ok") is False:
-            ctx.fail("save/load changed cell presence (%s)" % k.split("/")[0], {"saveload": k}, observed=v,
-                     tags={"kind": "saveload-presence", "format": k.split("/")[0], "with_cell": k.endswith("/cell"), "explained_by": None})
